@@ -317,3 +317,8 @@ TEXT['C17']['level'] = ('PROOF, complete on the model: CompatFacts.compat_spec (
 PROPS['C12'].update(run_files=['Tie.v', 'TieWf.v', 'TieSim.v', 'PropsC02.v', 'PropsC12.v'],
                     static_files=MACH_STATIC + ['DecodeFacts.v', 'Sim.v', 'SpecMachines.v', 'Ref.v', 'SpecFacts.v'])
 TEXT['C12']['level'] = ('PROOF on the model, end to end for the null test: PropsC12.C12_DecodeInt64 ... C12_DecodeUint, C12_DecodeFloat64, C12_DecodeBool, C12_DecodeString: for ALL inputs and ALL initial targets each Decode function (model of decode.go over the REGENERATED readNull / readBool / string tables) stores the value and returns the offset of its reader when the reader succeeds; otherwise, when the input is whitespace followed by the literal null (the reference of ReadNull, C13) it returns the offset after null, no error and the target unchanged; otherwise the reader\'s own error with the target unchanged (C12_target_unchanged_unless_reader_succeeds); never abnormal (C12_decode_total). Static: DecodeFacts.decode_with_spec and corollaries, generic in the reader. Correspondence: every Decode function x 3 non-zero initial targets x inputs incl. null placed exactly where each reader gives up, -0 and integers at the reader limits (a Decode function that does not simply run its reader differs there), string-buffer histories checking that a failing DecodeString leaves its target alone.')
+
+# C13: type exclusivity on the regenerated tables, incl. ReadArray / ReadObject through the tree theorem
+PROPS['C13'].update(run_files=['Tie.v', 'TieWf.v', 'TieSim.v', 'PropsC02.v', 'PropsC03.v', 'PropsC13.v'],
+                    static_files=PROPS['C13']['static_files'] + [f for f in TREE_STATIC if f not in PROPS['C13']['static_files']])
+TEXT['C13']['level'] = ('PROOF on the model: 256-way lemmas that the REGENERATED tokenTypes / whitespace tables are the fixed JSON tables (Tie.v); next_token_type_spec / next_token_spec closed forms (ExclusiveFacts); PropsC02.C13_ReadNull_exact / C13_ReadBool_exact: the literal readers over the regenerated tables equal the reference (exactly the four/five bytes after optional whitespace); PropsC13.C13_ReadNull_exclusive / C13_ReadBool_exclusive / C13_ReadArray_exclusive / C13_ReadObject_exclusive / C13_null_not_array_not_object: a typed reader succeeds only on a token NextTokenType classifies as its own type, null included (ReadArray / ReadObject through the C03 tree theorem); ExclusiveFacts.accepts_classified for the integer, float and string readers (hence at most one Read family accepts any input). Correspondence: every byte after 10 whitespace prefixes, every 1-byte corruption / truncation of the literals incl. long tails, sweeps of readNull / readBool, typed readers on null after a failing call on the same reader.')
